@@ -149,7 +149,23 @@ def algorithm_run(R, alg, hist, mode, mini, multi, budget_kind, n, repkind, gp_s
         budget = RecordingBudget(inner, events, ffcount=lambda: ff.k, mtargets=[float(t) for t in target])
     else:
         budget = RecordingBudget(inner, events, target=target, ffcount=lambda: ff.k)
-    if alg == "RS":
+    if alg == "SGP":
+        # the "simple API" of the repository (geml.simplegp.SimpleGP): it builds problem, budget, step and tracker itself;
+        # its budget is wrapped by the recording delegate and an observer is added to its tracker after construction
+        from geml.simplegp import SimpleGP
+        from harness.search_common import TokenTreeRep, search_grammar
+        from geneticengine.representations.tree.initializations import MaxDepthDecider
+        sgp = SimpleGP(ff, search_grammar(), minimize=bool(mini[0]),
+                       target_fitness=(target if budget_kind == "anyof" else None), max_time=10 ** 9, max_evaluations=n,
+                       seed=R.randint(0, 10 ** 6), population_size=pop, elitism=1 if pop > 2 else 0,
+                       novelty=1 if pop > 2 else 0, max_depth=4)
+        a = sgp.gp
+        a.representation = TokenTreeRep(a.representation.grammar, MaxDepthDecider(a.random, a.representation.grammar, 4))
+        problem, tracker = sgp.problem, a.tracker
+        tracker.recorders.append(Observer(events, ids))
+        a.budget = RecordingBudget(a.budget, events, target=(target if budget_kind == "anyof" else None), ffcount=lambda: ff.k)
+        fb = b = pop
+    elif alg == "RS":
         a = RandomSearch(problem, budget, rep, rs, tracker)
         fb = b = 1
     elif alg == "OPO":
@@ -381,6 +397,17 @@ def main():
                                     gp_step="default", pop=3, k=2, target=val + off)
             batch.trace(f"run/fractarget/{i}/{alg}", ev, cfg)
             stats["events"] += len(ev)
+
+    # the repository's simple API; target 0 is the natural "stop when solved" configuration
+    for i in range(8 if quick else 48):
+        mi = bool(i % 2)
+        bk = "anyof" if i % 4 < 2 else "eval"
+        tv = [0, 0, 3, 12][i % 4]
+        h = [[x] for x in ((5, 1, 9, 3, 0, 7, 2, 12, 4, 10, 6, 8) if i % 3 else (5, 1, 9, 3, 11, 7, 2, 12, 4, 10, 6, 8))]
+        ev, cfg = algorithm_run(R, "SGP", h, "table", [mi], False, bk, R.randint(8, 30), "tree", pop=R.choice([3, 5, 8]),
+                                target=tv if bk == "anyof" else None)
+        batch.trace(f"run/sgp/{i}/{bk}", ev, cfg)
+        stats["events"] += len(ev)
 
     # the self-adjusting GP variant
     for i in range(12 if quick else 90):
